@@ -9,3 +9,11 @@ package keeper
 
 //@ extern (Keeper).Authenticate(ctx, sourceChain, destinationChain, port) (result)
 //@   ensures def: result <==> routeAllowed(tibc[routingRules()], sourceChain, destinationChain, port)
+//@
+//@ // SetRoutingRules: syntax check per rule, then the JSON encoding of the rule list is stored under the routing key (C12)
+//@ func (Keeper).SetRoutingRules(ctx, rules) (err)
+//@   props C12 C15
+//@   modifies tibc
+//@   ensures frame:  forall k: key :: k != routingRules() ==> tibc[k] == old(tibc)[k]
+//@   ensures atomic: err != nil ==> tibc == old(tibc)
+//@   loop #0 invariant nowrite: tibc == old(tibc)
